@@ -70,7 +70,9 @@ def rules(model: Model, tier: str) -> List[RuleResult]:
     from .c01 import _zero_rhs_shortcut as _zrs
     ZS = RuleResult(PROP, "C02-Z", "the zero right-hand-side shortcut is taken only for an exactly zero right-hand side (a tiny non-zero one would get X = 0 and zero gradients)", min_instances=1)
     _zrs(model, ZS)
-    return [R1, R2, R3, R4, R5, R6, H, S, *_hy, ADJ, STL, HF, *_sub, LSN, ZS]
+    from .c01 import krylov_loop_rules as _klr
+    _ls = _klr(model, PROP)
+    return [R1, R2, R3, R4, R5, R6, H, S, *_hy, ADJ, STL, HF, *_sub, LSN, ZS, *_ls]
 
 
 def _backward_group_order(fc, R6: RuleResult):
